@@ -837,6 +837,40 @@ Section Combined.
 End Combined.
 
 (* ------------------------------------------------------------------ *)
+(* the signature covers the identity STRINGS: another spelling of the same peer ID
+   (peer.Decode gives the same peer) is a changed signed value like any other *)
+
+Section Spelling.
+  Variables pubkey sigt peerid : Type.
+  Variable verify : pubkey -> bytes -> sigt -> bool.
+  Variable peer_id : pubkey -> peerid.
+  Variable peerid_eqb : peerid -> peerid -> bool.
+  Variable Hf : bytes -> bytes.
+  Variable decode_pid : bytes -> option peerid.
+  Hypothesis eqb_spec : forall a b, peerid_eqb a b = true <-> a = b.
+  Hypothesis Hinj : H_injective Hf.
+
+  Local Notation V strict := (verify_gen verify peer_id peerid_eqb (ideal_H Hf) decode_pid strict).
+
+  Lemma respelled_rejected st st' (a : ad pubkey sigt) s :
+    V st a = Ok s ->
+    (forall v, v <> a_provider a -> decode_pid v = decode_pid (a_provider a) ->
+       is_ok (V st' (upd_provider pubkey sigt a v)) = false) /\
+    (forall x l1 p l2 v, a_ext a = Some x -> x_providers x = l1 ++ p :: l2 ->
+       v <> p_id p -> decode_pid v = decode_pid (p_id p) ->
+       is_ok (V st' (upd_providers pubkey sigt a x (l1 ++ upd_pid pubkey sigt p v :: l2))) = false).
+  Proof.
+    intro Va. split.
+    - intros v N _.
+      destruct (ad_value_change_rejected _ _ _ verify peer_id peerid_eqb Hf decode_pid eqb_spec Hinj st st' a s Va) as (_ & _ & T3 & _).
+      apply T3. exact N.
+    - intros x l1 p l2 v X Ps N _.
+      destruct (ep_value_change_rejected _ _ _ verify peer_id peerid_eqb Hf decode_pid eqb_spec Hinj st st' a s x Va X) as (_ & _ & U3 & _).
+      apply U3; assumption.
+  Qed.
+End Spelling.
+
+(* ------------------------------------------------------------------ *)
 (* the premises can be met together, and concrete runs on the symbolic instance *)
 
 Module Witness.
